@@ -41,6 +41,8 @@ import (
 	"sort"
 	"strings"
 	"sync"
+	"sync/atomic"
+	"time"
 
 	"github.com/blinklabs-io/gouroboros/ledger/alonzo"
 	"github.com/blinklabs-io/gouroboros/ledger/babbage"
@@ -473,6 +475,26 @@ func main() {
 			}
 		}
 	}
+	// interleave the eras (a soft deadline then never starves a whole era)
+	{
+		per := map[int][]caseT{}
+		for _, j := range jobs {
+			per[j.era] = append(per[j.era], j)
+		}
+		jobs = jobs[:0]
+		for i := 0; ; i++ {
+			any := false
+			for _, era := range eras {
+				if i < len(per[era]) {
+					jobs = append(jobs, per[era][i])
+					any = true
+				}
+			}
+			if !any {
+				break
+			}
+		}
+	}
 	envs := map[[2]int]*EraEnv{}
 	sdhIdx := map[int]map[int]bool{}
 	tabs := [2]map[int][]int64{costTables(0), costTables(1)}
@@ -590,7 +612,14 @@ func main() {
 		}
 	}
 
+	// soft deadline (safety net for an oversubscribed machine): jobs that would start after it are skipped and counted
+	deadline := c.Deadline(170*time.Second, 560*time.Second)
+	var skipped int64
 	vlib.Parallel(len(jobs), func(i int) {
+		if time.Now().After(deadline) {
+			atomic.AddInt64(&skipped, 1)
+			return
+		}
 		k := jobs[i]
 		b := w.build(k)
 		runCase(k, b, "", nil)
@@ -637,6 +666,9 @@ func main() {
 			}
 		}
 		c.Set("violating_cases_by_key", m)
+	}
+	if skipped > 0 {
+		c.NotExhaustive(fmt.Sprintf("soft deadline reached: %d of %d cases were not run", skipped, len(jobs)))
 	}
 	c.Set("rule", "eras Alonzo..Dijkstra x language subset (era's V1..V3) x scripts in witness set / behind reference inputs (Babbage+) x redeemers {list, map (Conway+)} for non-empty language sets and {absent, empty list, empty map (Conway+)} for the empty set x datums {absent, one, two, present-empty} x {plain list, tag-258 set (Conway+)} x 2 cost-model tables x declared {correct, one bit off, absent}; plus every d=1 header re-encoding of the redeemers and of the datums container with declared {correct for the new bytes, bit off, absent, hash of the canonical bytes}; all rules of the era list are run, only script-data-hash results are read; distinct = case tuple + declared kind; oracle = own hashScriptIntegrity + own language-views encoder")
 	c.Assume("blake2b-256 / ed25519 trusted; script bytes, key and txids are representatives (scripts are never executed for this property)")
